@@ -99,7 +99,8 @@ def execute(case, prefix, collect=None):
     holder = {}
 
     def body():
-        node = N.build_node(sched, SCRIPT_READS)
+        node = N.build_node(sched, SCRIPT_READS, modules=tuple(case.get('modules') or ('m',)),
+                            classes={'m': N.MP} if case.get('prefix') else None)
         holder['node'] = node
         obs = None
         if case['observer']:
@@ -112,6 +113,7 @@ def execute(case, prefix, collect=None):
         # the peer stays connected until the driver is through (so that "quiet" can be judged), except in the cases
         # that race the disconnect itself
         hold = not case.get('eof_race')
+        hold2 = not case.get('eof_race2')
         sock = N.CoopSock(sched, 'c1', [(l + '\n').encode() for l in case['script']],
                           eof_when=(lambda: bool(done)) if hold else None)
         holder['sock'] = sock
@@ -122,7 +124,8 @@ def execute(case, prefix, collect=None):
         t2 = schedx.Thread(target=lambda: [N.driver_op(node, op) for op in case['ops']] + [done.append(1)], name='driver')
         ts = [t1, t2]
         if case.get('script2'):
-            sock2 = N.CoopSock(sched, 'c2', [(l + '\n').encode() for l in case['script2']], eof_when=lambda: bool(done))
+            sock2 = N.CoopSock(sched, 'c2', [(l + '\n').encode() for l in case['script2']],
+                               eof_when=(lambda: bool(done)) if hold2 else None)
             ts.append(schedx.Thread(target=N.run_handler(node, sock2), name='handler2'))
         for t in ts:
             t.start()
@@ -332,6 +335,23 @@ def cases(tier):
                          ('global|global', ['activate', 'deactivate'], ['activate'])]:
         res.append({'name': f'two:{name}/value2', 'script': s1, 'script2': s2, 'ops': OPS['value2'], 'observer': False,
                     'level': 'sync', 'bound': 1 if tier == 'quick' else 2})
+    # event names that are string prefixes of each other (m:_x / m:_x2, m / m2): scopes are matched exactly
+    pre = {'x2-twice': [['assign', 'm', 'x2', 5], ['assign', 'm', 'x2', 6]],
+           'm2-value2': [['assign', 'm2', 'value', 1.5], ['assign', 'm2', 'value', 2.5]],
+           'x-then-x2': [['assign', 'm', 'x', 7], ['assign', 'm', 'x2', 8]]}
+    for name, script, ops, modules in [
+            ('param', ['activate m:_x', 'activate m:_x2', 'deactivate m:_x'], 'x2-twice', ['m']),
+            ('param-rev', ['activate m:_x2', 'activate m:_x', 'deactivate m:_x2'], 'x-then-x2', ['m']),
+            ('module', ['activate m2', 'activate m', 'deactivate m'], 'm2-value2', ['m', 'm2']),
+            ('module-param', ['activate m2:value', 'activate m', 'deactivate m'], 'm2-value2', ['m', 'm2'])]:
+        res.append({'name': f'prefix:{name}/{ops}', 'script': script, 'ops': pre[ops], 'observer': False, 'prefix': True,
+                    'modules': modules, 'level': 'sync', 'bound': 1 if tier == 'quick' else 2})
+    # a disconnect (lock-free remove_connection) racing with another connection's activate of the same scope
+    for name, s1, s2 in [('param', ['activate m:value'], ['activate m:value']),
+                         ('module', ['activate m'], ['activate m']),
+                         ('param-vs-module', ['activate m:value'], ['activate m'])]:
+        res.append({'name': f'eof-vs-activate:{name}/value2/line', 'script': s1, 'script2': s2, 'ops': OPS['value2'],
+                    'observer': False, 'eof_race': True, 'level': 'line', 'bound': 1 if tier == 'quick' else 2})
     # line level in the dispatcher / funnel
     line_scripts = ['global-deact', 'param-deact-by-module', 'global-ident', 'module-eof'] if tier == 'quick' else list(SCRIPTS)
     for sname in line_scripts:
